@@ -27,8 +27,8 @@ UNIT = dict(
         "Cache::call@Service": dict(rules=[
             ("R4",), ("R3",),
             ("sub", "R8-lock", r"(self\.)?store\.lock\(\)\.unwrap\(\)", lambda m, t: "vx_lock(&%sstore)" % (t[m.start(1):m.end(1)] if m.start(1) >= 0 else ""), 2),
-            ("sub", "R6-store", r"store\.get\(&key\)", "store.get(&key, clk, Tracked(tr))", 1),
-            ("sub", "R6-store", r"store\.insert\(key, response\.clone\(\)\)", "store.insert(key, response.clone(), clk, Tracked(tr))", 1),
+            ("sub", "R6-store", r"\.get\(&(\w+)\)", r".get(&\1, clk, Tracked(tr))", 1),
+            ("sub", "R6-store", r"\.insert\((\w+), (\w+)\.clone\(\)\)", r".insert(\1, \2.clone(), clk, Tracked(tr))", 1),
             ("addarg", ["call"], TR, 1),
             ("R10e", 1),
         ]),
